@@ -223,8 +223,9 @@ def recover_mode(r, F):
     for a in strict:
         t = a.eq_edges[0][1]
         reach = fn.reachable([t], avoid=[a.sw] + nxt)
-        errs = [s for bb in reach for s in fn.blocks[bb].stmts if s.k == "assign" and s.place.local == 0 and s.rv.k == "agg" and s.rv.j.get("variant") == "Err"]
-        r.require(bool(errs), fn, "Strict: scan error -> Err", "strict mode propagates the scan error", "strict recovery swallows a scan error", ln=a.ln)
+        errb = [bb for bb in reach for s in fn.blocks[bb].stmts if s.k == "assign" and s.place.local == 0 and s.rv.k == "agg" and s.rv.j.get("variant") == "Err"]
+        r.require(bool(errb) and fn.must_pass(t, errb, fn.returns() + nxt), fn, "Strict: scan error -> Err", "strict mode propagates the scan error on every path",
+                  "strict recovery swallows a scan error (on some path the error is not returned)", ln=a.ln)
         t2 = a.ne_edges[0][1]
         reach2 = fn.reachable([t2], avoid=[a.sw])
         r.require(not (set(nxt) & reach2) and not (set(push) & reach2), fn, "Quiet: scan error -> stop this block", "quiet mode stops scanning the block and keeps what was recovered",
